@@ -75,6 +75,16 @@ inductive Op where
   | optCopyValue
   | eithMakeSuccess | eithMakeFailure | eithCtor | eithConstruct | eithTryCall | eithToException | eithErrorFromOptional
   | eithSequenceError | eithLoop | varCtor
+  -- extension round 2: algorithm / container helpers
+  | algFindOpt | algIndexOf | algContains | algFindIfOpt | algFindByOpt | algGenerateN
+  | algMapIteration | algMapIterationSecond | algSeqIteration
+  | contInsert | contSetUnion | contSetDifference | contSetIntersection | contMapValuesCopy
+  | contAtOptional | contMaybeBack | contMaybeFront | contFindOptMapped | contIndexMapGet
+  -- tree / grid members
+  | treeCtorTree | treeCtorChildren | treeAssign | treeSelfAssign | treeSetValue
+  | treePushFrontValue | treeInsertValue | treePushFrontTree | treeInsertTree | treePopBack | treePopFront
+  | treeErase | treeEraseRange | treeClear | treeSort
+  | gridCtorFn | gridCtorValue | gridCtorRows2 | gridStaticRow2 | gridCtorGrid | gridAssign | gridSelfAssign | gridFill
   deriving DecidableEq, Repr, Inhabited
 
 /-- Arguments (value category, element identities in container order) and the operation's
@@ -122,6 +132,16 @@ def zipCall2 (rv0 rv1 : Bool) (n : Nat) (d : Dest) : List Instr :=
 
 /-- what the harness function `sink_second` does with its second argument: an rvalue is moved into a local that dies, an lvalue is read -/
 def sinkAt (rv : Bool) (a i : Nat) : Instr := if rv then .xfer a i .move .drop else .read a i
+
+/-- `map_iteration` / `sequence_iteration` (node containers): the user's action reads every element; answer 0 = remove: `erase(it)` -/
+def iterErase (a : Nat) (mask : List Nat) : List Instr :=
+  (List.range mask.length).flatMap fun i => .read a i :: (if mask[i]? = some 0 then [.pop a i .drop] else [])
+
+/-- `erase(first, last)` / `clear()` of a node container: the elements `lo .. hi-1` are destroyed in place -/
+def eraseRange (a lo hi : Nat) : List Instr := (List.range (hi - lo)).map fun j => .pop a (lo + j) .drop
+
+/-- `grid::fill`: every cell is overwritten with what the user's function makes -/
+def fillAll (a n : Nat) : List Instr := (List.range n).flatMap fun i => [.pop a i .drop, .fresh (1000 + i) (.arg a)]
 
 def freshRange (n : Nat) (d : Dest) : List Instr := (List.range n).map fun j => .fresh (1000 + j) d
 
@@ -279,6 +299,50 @@ def prog (o : Op) (inp : Input) : List Instr :=
     | none => readAll 0 (n 0)
   -- either::loop: par0 successes (each moved into the user's `loop` function, which keeps them), then the failure
   | .eithLoop => freshRange (par0 + 1) .res
+  -- algorithm::find_opt / index_of / contains: `std::find`; par0 = k: the value looked for is element k of the range itself
+  -- (`find_opt(v, v[k])`), k = size: it is the separate object of argument 1, equal to no element
+  | .algFindOpt | .algIndexOf | .algContains => if par0 < n 0 then readAll 0 (par0 + 1) else readAll 0 (n 0) ++ [.read 1 0]
+  -- find_if_opt: the predicate answers true at element par0
+  | .algFindIfOpt => readAll 0 (min (n 0) (par0 + 1))
+  -- find_by_opt: the user's function reads every element and answers with an optional holding a value derived from element par0
+  | .algFindByOpt => deriveEach 0 ((List.replicate par0 0 ++ [1]).take (n 0)) .res
+  | .algGenerateN => freshRange par0 .res
+  | .algMapIteration | .algMapIterationSecond | .algSeqIteration => iterErase 0 inp.par
+  -- container::insert into a map: par0 = index of the key among the keys present (size: a new key)
+  | .contInsert => if par0 < n 0 then [] else xferAll 1 (n 1) (fwd (rv 1)) (.arg 0)
+  -- set_union / set_difference / set_intersection take `Set const &`: elements are copied; par0 = 1: both arguments are the same set
+  | .contSetUnion => xferAll 0 (n 0) .copy .res ++ (if par0 = 1 then [] else xferAll 1 (n 1) .copy .res)
+  | .contSetDifference => if par0 = 1 then [] else xferAll 0 (n 0) .copy .res
+  | .contSetIntersection => if par0 = 1 then xferAll 0 (n 0) .copy .res else []
+  | .contMapValuesCopy => xferAll 0 (n 0) .copy .res
+  -- at_optional / maybe_back / maybe_front / find_opt_mapped return (optional) references: no element is touched
+  | .contAtOptional | .contMaybeBack | .contMaybeFront | .contFindOptMapped => []
+  -- index_map::get(index, insert): `push_back(insert())` until the index exists
+  | .contIndexMapGet => freshRange (par0 + 1 - n 0) (.arg 0)
+  -- tree: argument 0 = the value of the root, argument 1 = the children (their subtrees in pre-order)
+  | .treeCtorTree | .treeCtorChildren =>
+    if rv 0 then [.xfer 0 0 .move .res, .steal 1 .res] else .xfer 0 0 .copy .res :: xferAll 1 (n 1) .copy .res
+  | .treeAssign =>
+    -- target = arguments 0 / 1, source = arguments 2 / 3: `value_ = other.value_; children_ = copy/move_children(other.children_)`
+    [.pop 0 0 .drop, .xfer 2 0 (fwd (rv 2)) (.arg 0), .steal 1 .drop] ++
+      (if rv 2 then [.steal 3 (.arg 1)] else xferAll 3 (n 3) .copy (.arg 1))
+  | .treeSelfAssign => []
+  | .treeSetValue => [.pop 0 0 .drop, .xfer 1 0 (fwd (rv 1)) (.arg 0)]
+  | .treePushFrontValue | .treeInsertValue | .treePushFrontTree | .treeInsertTree => xferAll 1 (n 1) (fwd (rv 1)) (.arg 0)
+  | .treePopBack => if n 0 ≤ 1 then [] else [.pop 0 (n 0 - 1) .res]
+  | .treePopFront => if n 0 ≤ 1 then [] else [.pop 0 1 .res]
+  | .treeErase => eraseRange 0 (par0 + 1) (par0 + 2)
+  | .treeEraseRange => eraseRange 0 (par0 + 1) (par1 + 1)
+  | .treeClear => eraseRange 0 1 (n 0)
+  | .treeSort => readAll 0 (n 0)
+  -- grid constructors: from a function, from one value (copied into every cell), from static rows, from a grid
+  | .gridCtorFn => freshRange (par0 * par1) .res
+  | .gridCtorValue => (List.range (par0 * par1)).map fun _ => .xfer 0 0 .copy .res
+  | .gridCtorRows2 | .gridStaticRow2 => xferAll 0 (n 0) (fwd (rv 0)) .res ++ xferAll 1 (n 1) (fwd (rv 1)) .res
+  | .gridCtorGrid => whole (rv 0) 0 (n 0) .res
+  | .gridAssign => .steal 0 .drop :: (if rv 1 then [.steal 1 (.arg 0)] else xferAll 1 (n 1) .copy (.arg 0))
+  | .gridSelfAssign => []
+  | .gridFill => fillAll 0 (n 0)
 
 def jn (b : Bool) : String := if b then "J" else "N"
 def sf (b : Bool) : String := if b then "S" else "F"
@@ -325,6 +389,18 @@ def tag (o : Op) (inp : Input) : String :=
   | .eithToException => if inp.par.headD 0 == 1 then "-" else "exc"
   | .eithSequenceError => sf (inp.par.all (· == 1))
   | .varCtor => s!"A{inp.par.headD 0}"
+  | .algFindOpt | .algFindIfOpt => match (inp.ids 0)[inp.par.headD 0]? with | some x => s!"J{x}" | none => "N"
+  | .algIndexOf => if inp.par.headD 0 < inp.size 0 then s!"J{inp.par.headD 0}" else "N"
+  | .algContains => if inp.par.headD 0 < inp.size 0 then "1" else "0"
+  | .contInsert => if inp.par.headD 0 < inp.size 0 then "I0" else "I1"
+  | .algFindByOpt => jn (inp.par.headD 0 < inp.size 0)
+  | .algMapIteration | .algMapIterationSecond | .algSeqIteration => "-"
+  | .contAtOptional | .contFindOptMapped => match (inp.ids 0)[inp.par.headD 0]? with | some x => s!"R{x}" | none => "N"
+  | .contMaybeBack => match (inp.ids 0).getLast? with | some x => s!"R{x}" | none => "N"
+  | .contMaybeFront => match (inp.ids 0).head? with | some x => s!"R{x}" | none => "N"
+  | .contIndexMapGet =>
+    match (inp.ids 0)[inp.par.headD 0]? with | some x => s!"R{x}" | none => s!"R{1000 + (inp.par.headD 0 - inp.size 0)}"
+  | .treePopBack | .treePopFront => jn (decide (1 < inp.size 0))
   | _ => "-"
 
 /-! ## well-formed inputs -/
@@ -441,6 +517,51 @@ def shapeOk (o : Op) (inp : Input) : Bool :=
     inp.args.length == 1 && catIn inp 0 anyCat && n 0 == 1 && inp.par.length == 1 && inp.par.headD 0 ≤ 1
   | .varCtor => inp.args.length == 1 && catIn inp 0 anyCat && n 0 == 1 && inp.par.length == 1 && inp.par.headD 0 ≤ 2
   | .eithSequenceError => inp.args.length == 1 && catIn inp 0 anyCat && inp.par.length == n 0 && inp.par.all (· ≤ 1)
+  | .algFindOpt | .algIndexOf | .algContains =>
+    inp.args.length == 2 && catIn inp 0 [.lv, .cr] && catIn inp 1 [.cr] && n 1 == 1 && inp.par.length == 1 && inp.par.headD 0 ≤ n 0
+  | .algFindIfOpt | .algFindByOpt => inp.args.length == 1 && catIn inp 0 [.lv, .cr] && inp.par.length == 1 && inp.par.headD 0 ≤ n 0
+  | .algGenerateN => inp.args.length == 0 && inp.par.length == 1
+  | .algMapIteration | .algMapIterationSecond | .algSeqIteration =>
+    inp.args.length == 1 && catIn inp 0 [.io] && inp.par.length == n 0 && inp.par.all (· ≤ 1)
+  | .contInsert =>
+    inp.args.length == 2 && catIn inp 0 [.io] && catIn inp 1 anyCat && n 1 == 1 && inp.par.length == 1 && inp.par.headD 0 ≤ n 0
+  | .contSetUnion | .contSetDifference | .contSetIntersection =>
+    inp.args.length == 2 && catIn inp 0 [.lv, .cr] && catIn inp 1 [.lv, .cr] && inp.par.length == 1 && inp.par.headD 0 ≤ 1 &&
+      (inp.par.headD 0 == 0 || n 1 == 0)
+  | .contMapValuesCopy => inp.args.length == 1 && catIn inp 0 [.lv, .cr] && inp.par.isEmpty
+  | .contAtOptional | .contFindOptMapped => inp.args.length == 1 && catIn inp 0 [.lv, .cr] && inp.par.length == 1 && inp.par.headD 0 ≤ n 0
+  | .contMaybeBack | .contMaybeFront => inp.args.length == 1 && catIn inp 0 [.lv, .cr] && inp.par.isEmpty
+  | .contIndexMapGet => inp.args.length == 1 && catIn inp 0 [.io] && inp.par.length == 1
+  | .treeCtorTree =>
+    inp.args.length == 2 && catIn inp 0 anyCat && catIn inp 1 anyCat && inp.cat 0 == inp.cat 1 && n 0 == 1 && inp.par.isEmpty
+  | .treeCtorChildren => inp.args.length == 2 && catIn inp 0 [.rv] && catIn inp 1 [.rv] && n 0 == 1 && inp.par.isEmpty
+  | .treeAssign =>
+    inp.args.length == 4 && catIn inp 0 [.io] && catIn inp 1 [.io] && catIn inp 2 anyCat && catIn inp 3 anyCat &&
+      inp.cat 2 == inp.cat 3 && n 0 == 1 && n 2 == 1 && inp.par.isEmpty
+  | .treeSelfAssign =>
+    -- par = [0: copy assignment, 1: move assignment]
+    inp.args.length == 2 && catIn inp 0 [.io] && catIn inp 1 [.io] && n 0 == 1 && inp.par.length == 1 && inp.par.headD 0 ≤ 1
+  | .treeSetValue => inp.args.length == 2 && catIn inp 0 [.io] && catIn inp 1 anyCat && n 0 == 1 && n 1 == 1 && inp.par.isEmpty
+  | .treePushFrontValue => inp.args.length == 2 && catIn inp 0 [.io] && catIn inp 1 anyCat && 1 ≤ n 0 && n 1 == 1 && inp.par.isEmpty
+  | .treeInsertValue =>
+    inp.args.length == 2 && catIn inp 0 [.io] && catIn inp 1 anyCat && 1 ≤ n 0 && n 1 == 1 && inp.par.length == 1 && inp.par.headD 0 < n 0
+  | .treePushFrontTree => inp.args.length == 2 && catIn inp 0 [.io] && catIn inp 1 [.rv] && 1 ≤ n 0 && n 1 == 1 && inp.par.isEmpty
+  | .treeInsertTree =>
+    inp.args.length == 2 && catIn inp 0 [.io] && catIn inp 1 [.rv] && 1 ≤ n 0 && n 1 == 1 && inp.par.length == 1 && inp.par.headD 0 < n 0
+  | .treePopBack | .treePopFront | .treeClear | .treeSort => inp.args.length == 1 && catIn inp 0 [.io] && 1 ≤ n 0 && inp.par.isEmpty
+  | .treeErase => inp.args.length == 1 && catIn inp 0 [.io] && inp.par.length == 1 && inp.par.headD 0 + 1 < n 0
+  | .treeEraseRange =>
+    inp.args.length == 1 && catIn inp 0 [.io] && inp.par.length == 2 && inp.par.headD 0 ≤ (inp.par.drop 1).headD 0 &&
+      (inp.par.drop 1).headD 0 < n 0
+  | .gridCtorFn => inp.args.length == 0 && inp.par.length == 2
+  | .gridCtorValue => inp.args.length == 1 && catIn inp 0 [.cr] && n 0 == 1 && inp.par.length == 2
+  | .gridCtorRows2 => inp.args.length == 2 && catIn inp 0 [.rv] && catIn inp 1 [.rv] && n 0 == n 1 && 1 ≤ n 0 && inp.par.isEmpty
+  | .gridStaticRow2 => inp.args.length == 2 && catIn inp 0 anyCat && catIn inp 1 anyCat && n 0 == 1 && n 1 == 1 && inp.par.isEmpty
+  | .gridCtorGrid => inp.args.length == 1 && catIn inp 0 anyCat && inp.par.length == 2 && inp.par.headD 0 * (inp.par.drop 1).headD 0 == n 0
+  | .gridAssign => inp.args.length == 2 && catIn inp 0 [.io] && catIn inp 1 anyCat && inp.par.isEmpty
+  | .gridSelfAssign =>
+    inp.args.length == 1 && catIn inp 0 [.io] && inp.par.length == 1 && inp.par.headD 0 ≤ 1
+  | .gridFill => inp.args.length == 1 && catIn inp 0 [.io] && inp.par.isEmpty
 
 def wf (o : Op) (inp : Input) : Bool := idsOk inp && shapeOk o inp
 
@@ -457,7 +578,7 @@ def keeps (o : Op) (inp : Input) (a : Nat) : Bool :=
   | .tupInvoke | .tupFromArray | .tupMake2 | .arrMake2 | .recCtor2 | .arrApply2
   | .optMake | .optCtor | .optToException | .optMaybe | .optMaybeVoid
   | .eithMakeSuccess | .eithMakeFailure | .eithCtor | .eithToException | .eithErrorFromOptional | .varCtor
-  | .varApply2 => true
+  | .varApply2 | .treeCtorTree | .treeCtorChildren | .gridCtorRows2 | .gridStaticRow2 | .gridCtorGrid => true
   | .optApply2 | .optMaybeMulti2 | .optMaybeVoidMulti2 => inp.size 0 == 1 && inp.size 1 == 1
   | .gridApply2 => inp.par.headD 0 == (inp.par.drop 2).headD 0 && (inp.par.drop 1).headD 0 == (inp.par.drop 3).headD 0
   | .fold | .foldBreak => a == 1
@@ -469,7 +590,9 @@ def keeps (o : Op) (inp : Input) (a : Nat) : Bool :=
 /-- the operations whose program destroys values it took or made (a second failure in `either::apply`, the failures before the
 first success in `first_success`, a half-parsed sequence, the emptied `move_range`) -/
 def drops : Op → Bool
-  | .eithApply2 | .eithFirstSuccess | .parseSequence | .moveRangeMap | .optCombine | .optAssign => true
+  | .eithApply2 | .eithFirstSuccess | .parseSequence | .moveRangeMap | .optCombine | .optAssign
+  | .algMapIteration | .algMapIterationSecond | .algSeqIteration | .treeAssign | .treeSetValue | .treeErase | .treeEraseRange | .treeClear
+  | .gridAssign | .gridFill => true
   | _ => false
 
 /-! ## the programs of three repaired defects, kept for the refuted examples in Props/C05.lean -/
@@ -499,7 +622,13 @@ def Op.all : List Op :=
    .tupInvoke, .tupApply2, .tupFromArray, .tupMake2, .tupInit, .arrApply2, .arrInit, .arrMake2, .recCtor2, .recInit,
    .optMake, .optCtor, .optAssign, .optToException, .optMakeIf, .optMaybe, .optMaybeVoid, .optMaybeMulti2, .optMaybeVoidMulti2,
    .optCopyValue, .eithMakeSuccess, .eithMakeFailure, .eithCtor, .eithConstruct, .eithTryCall, .eithToException,
-   .eithErrorFromOptional, .eithSequenceError, .eithLoop, .varCtor]
+   .eithErrorFromOptional, .eithSequenceError, .eithLoop, .varCtor,
+   .algFindOpt, .algIndexOf, .algContains, .algFindIfOpt, .algFindByOpt, .algGenerateN, .algMapIteration, .algMapIterationSecond,
+   .algSeqIteration, .contInsert, .contSetUnion, .contSetDifference, .contSetIntersection, .contMapValuesCopy, .contAtOptional,
+   .contMaybeBack, .contMaybeFront, .contFindOptMapped, .contIndexMapGet,
+   .treeCtorTree, .treeCtorChildren, .treeAssign, .treeSelfAssign, .treeSetValue, .treePushFrontValue, .treeInsertValue,
+   .treePushFrontTree, .treeInsertTree, .treePopBack, .treePopFront, .treeErase, .treeEraseRange, .treeClear, .treeSort,
+   .gridCtorFn, .gridCtorValue, .gridCtorRows2, .gridStaticRow2, .gridCtorGrid, .gridAssign, .gridSelfAssign, .gridFill]
 
 def Op.name : Op → String
   | .algMap => "algmap" | .fold => "fold" | .foldBreak => "foldbrk" | .mapConcat => "mapcat" | .mapOptional => "mapopt"
@@ -529,5 +658,18 @@ def Op.name : Op → String
   | .eithMakeSuccess => "eithmakesucc" | .eithMakeFailure => "eithmakefail" | .eithCtor => "eithctor"
   | .eithConstruct => "eithconstruct" | .eithTryCall => "eithtrycall" | .eithToException => "eithtoexc"
   | .eithErrorFromOptional => "eitherrfromopt" | .eithSequenceError => "eithseqerr" | .eithLoop => "eithloop" | .varCtor => "varctor"
+  | .algFindOpt => "algfind" | .algIndexOf => "algindexof" | .algContains => "algcontains" | .algFindIfOpt => "algfindif"
+  | .algFindByOpt => "algfindby" | .algGenerateN => "alggenerate" | .algMapIteration => "algmapiter"
+  | .algMapIterationSecond => "algmapiter2" | .algSeqIteration => "algseqiter"
+  | .contInsert => "continsert" | .contSetUnion => "setunion" | .contSetDifference => "setdiff" | .contSetIntersection => "setinter"
+  | .contMapValuesCopy => "mapvalcopy" | .contAtOptional => "atopt" | .contMaybeBack => "maybeback" | .contMaybeFront => "maybefront"
+  | .contFindOptMapped => "findoptmapped" | .contIndexMapGet => "indexmapget"
+  | .treeCtorTree => "treectortree" | .treeCtorChildren => "treectorchildren" | .treeAssign => "treeassign"
+  | .treeSelfAssign => "treeselfassign" | .treeSetValue => "treesetvalue" | .treePushFrontValue => "treepushfrontval"
+  | .treeInsertValue => "treeinsertval" | .treePushFrontTree => "treepushfronttree" | .treeInsertTree => "treeinserttree"
+  | .treePopBack => "treepopback" | .treePopFront => "treepopfront" | .treeErase => "treeerase" | .treeEraseRange => "treeeraserange"
+  | .treeClear => "treeclear" | .treeSort => "treesort"
+  | .gridCtorFn => "gridctorfn" | .gridCtorValue => "gridctorvalue" | .gridCtorRows2 => "gridctorrows2" | .gridStaticRow2 => "gridstaticrow2"
+  | .gridCtorGrid => "gridctorgrid" | .gridAssign => "gridassign" | .gridSelfAssign => "gridselfassign" | .gridFill => "gridfill"
 
 end Fcppt.C05
